@@ -378,6 +378,14 @@ func runCheck(prop, tier, only string, budgetOverride time.Duration) int {
 	if pm.Rule == "" {
 		pm.Rule = "scenarios of the property's grammar, each explored over all schedules within the deviation bound and all environment choices; an execution is non-trivial when it contained at least one scheduling decision; distinct = distinct final states"
 	}
+	if len(pm.Assumptions) == 0 {
+		pm.Assumptions = []string{}
+	}
+	pm.Assumptions = append(pm.Assumptions,
+		"the controlled runtime implements Go's channel/select/sync/atomic/context semantics (checked by the conformance litmus suite)",
+		"code between two synchronisation operations is atomic (true for data-race-free code; races are searched for under C17)",
+		"state cache keys are 64-bit hashes (collisions are possible but negligible)",
+		"coverage is bounded: schedules within the stated deviation bound, scenarios and histories of the stated sizes")
 	knownList := []string{}
 	for s, c := range seenKnown {
 		knownList = append(knownList, fmt.Sprintf("%s (%d scenarios)", s, c))
